@@ -109,7 +109,7 @@ def record_and_validate(ctx, pid, c, ntraces, length, ops=None, spec_ops='AllOps
                           {'seed': seed, 'flavour': flavour, 'events': [x['ev'] for x in events], 'error': bad['error']})
             events = events[:-1]
         if events:
-            traces.append([{'ev': x['ev'], 'post': x['post']} for x in events])
+            traces.append([{'ev': x['ev'], 'post': x['post'], 'ret': x.get('ret', [[], []])} for x in events])
             meta.append((seed, flavour))
             ctx.count(len(events))
     rejected = ctx.validate('MC_Trace_RdmsStore',
@@ -125,10 +125,21 @@ def record_and_validate(ctx, pid, c, ntraces, length, ops=None, spec_ops='AllOps
         if d and not d.get('enabled', True):
             raise MachineryError(f'recorder issued an event the specification does not enable: {d.get("ev")}')
         ev = d.get('ev', {})
-        ctx.violation(f"{pid}/{ev.get('op', '?')}/trace",
+        op = ev.get('op', '?')
+        slot = d.get('slot', 0)
+        key = f'{op}/returned-indices'
+        if slot:
+            logged = traces[idx][d['l'] - 1]['post'][slot - 1]
+            field = S.diff(S.norm_abs(logged), S.norm_abs(d['expected'][slot - 1])) or 'state'
+            prev = traces[idx][d['l'] - 2]['post'] if d['l'] >= 2 else None
+            was_live = (slot == 1) if prev is None else bool(prev[slot - 1]['pats'])
+            is_result = (slot == ev.get('o') and op in ('reorder', 'sort_alpha', 'sort_list', 'append')) or not was_live
+            key = f'{op}/{field}' if is_result else f'frame/{op}/{field}'
+        ctx.violation(f'{pid}/{key}',
                       'recorded post-state differs from Apply(objs, e) of the specification',
                       {'seed': meta[idx][0], 'flavour': meta[idx][1], 'diag': d,
-                       'events': [x['ev'] for x in traces[idx]], 'logged_post': traces[idx][d.get('l', 1) - 1]['post'] if d else None})
+                       'events': [x['ev'] for x in traces[idx]],
+                       'logged_post': traces[idx][d.get('l', 1) - 1]['post'] if d else None})
     return len(traces)
 
 
